@@ -94,7 +94,7 @@ def check_body(ck, rid, facts, r, op, ks, num, fields, ev):
                      sample="%s = %s" % (fld, w.fmt()[:200]))
         # result carries the variable list of an operand (or of the aligned pair)
         vv = val.fields.get("vars")
-        okv = isinstance(vv, cel.Sym) and vv.tag and vv.tag[0] in ("vars", "novars")  # novars: a float promoted by new(f, []) (then aligned by the union arm)
+        okv = isinstance(vv, cel.Sym) and vv.tag and vv.tag[0] in ("vars", "novars", "union")  # novars: a float promoted by new(f, []) (then aligned by the union arm)
         ck.check(rid, "%s%s:vars" % (short, tag), okv, "result does not carry an operand's variable list: %r" % (vv,), where, sample=repr(vv))
 
 
@@ -133,6 +133,9 @@ def run_order(ck, facts, num, rid_prefix, fields):
 
 def run(ck, facts, tier):
     run_order(ck, facts, "dual::dual::Dual", "R01", ["real", "dual"])
+    # the gradient is observed per variable name through gradient1: its read-back rule (C17 R17.1) is a necessary condition here too
+    from rules import c17
+    c17.run(ck, facts, tier, only={"gradient1[Dual]"})
     ck.not_decided += ["IEEE rounding; the kernels f64::exp/ln/powf and statrs Normal::{cdf,inverse_cdf} are atoms", "domain edges (division by zero, log of non-positive)",
                        "composition to arbitrary expression trees follows by induction given C03's alignment rules; it is not separately evaluated"]
     ck.trusted += ["lib/oracle.py 12-row derivative table + composition formula", "lib/cel.py normaliser"]
